@@ -51,7 +51,13 @@ def _unsome(v):
     return v[1] if isinstance(v, tuple) and len(v) == 2 and v[0] == "Some" else v
 
 
-def compare(rel, impl_err, impl_ids, val, scale):
+def ratio_tol(value, scale, dist):
+    """rounding budget of 100 * |error| / reference distance: coordinates of magnitude `scale` carry ~eps*scale of
+    cancellation noise, which the division by the reference step `dist` amplifies (64x margin over what was measured)"""
+    return max(1e-7, 100.0 * 64 * 2.3e-16 * scale / max(dist, 1e-300) * (1.0 + abs(value) / 100.0))
+
+
+def compare(rel, impl_err, impl_ids, val, scale, dists=None):
     mc, ms = val
     if mc is None:
         return "model refuses but the implementation returned values" if impl_err is not None else None
@@ -75,7 +81,8 @@ def compare(rel, impl_err, impl_ids, val, scale):
     for k, (a, m) in enumerate(zip(impl_err, errs)):
         tol = 1e-12 * scale + 1e-13
         if rel == "point_distance_error_ratio":
-            tol = 1e-7   # relative quantity; the division amplifies cancellation noise on tiny reference steps
+            # relative quantity; the division amplifies cancellation noise on tiny reference steps
+            tol = ratio_tol(a, scale, dists[k]) if dists is not None and k < len(dists) else 1e-7
         if not close(a, m, rtol=1e-9, atol=tol):
             return "value %d: impl %r vs model %r" % (k, a, m)
     return None
@@ -180,7 +187,8 @@ def judge(case, val, out):
     rel = case["rel"]
     if case["kind"] == "rpe":
         ref = [U(p, (4, 4)) for p in case["ref"]]
-        scale = max([1.0] + [float(np.abs(p[:3, 3]).max()) for p in ref])
+        est_ = [U(p, (4, 4)) for p in case["est"]]
+        scale = max([1.0] + [float(np.abs(p[:3, 3]).max()) for p in ref + est_])
         if not out.get("unchanged", True):
             return _sv("RPE.process_data modified its input trajectories")
         if len(case["ref"]) != len(case["est"]):
@@ -192,17 +200,22 @@ def judge(case, val, out):
         impl_err, ids = [unhex(x) for x in out["error"]], out["ids"]
         if len(impl_err) != len(ids):
             return _sv("values and delta_ids have different lengths (%d vs %d)" % (len(impl_err), len(ids)))
-        d = compare(rel, impl_err, ids, val, scale)
+        first = {int(j): int(i) for i, j in out["pairs"]}
+        dists = [float(np.linalg.norm(ref[j][:3, 3] - ref[first[j]][:3, 3])) if j in first else 1.0 for j in ids]
+        d = compare(rel, impl_err, ids, val, scale, dists)
         if d is not None:
             return _mv(d, "Metrics.rpe")
         if case.get("laws"):
             ang = rel.startswith("rotation_angle")
-            atol = 1e-6 if ang else (1e-6 if rel == "point_distance_error_ratio" else 1e-9 * scale)
+            ratio = rel == "point_distance_error_ratio"
+            atol = 1e-6 if ang else 1e-9 * scale
+            tols = [ratio_tol(a, scale, dk) for a, dk in zip(impl_err, dists)] if ratio else [atol] * len(impl_err)
             moved = [unhex(x) for x in out["moved"]]
             if out["moved_ids"] == ids:   # (a selection tie broken differently after the motion is not an error)
-                if any(not close(a, b, rtol=1e-9, atol=atol) for a, b in zip(impl_err, moved)):
+                if any(not close(a, b, rtol=1e-9, atol=t) for a, b, t in zip(impl_err, moved, tols)):
                     return _sv("RPE changed when reference and estimate were moved by different rigid motions")
-            if any(abs(unhex(x)) > atol for x in out["same_motion"]):
+            sm = [unhex(x) for x in out["same_motion"]]
+            if any(abs(x) > (ratio_tol(0.0, scale, dk) if ratio else atol) for x, dk in zip(sm, dists + [1.0] * len(sm))):
                 return _sv("RPE is not zero although both trajectories perform the same relative motions")
         return None
     # rpe_fn
